@@ -43,10 +43,13 @@ type Store struct {
 	immSeen map[string][32]byte
 	// pubHist is the history of effective uploads of "checkpoint".
 	pubHist []*CkptEvent
+	// tamperedAt: scheduler step of the last tamper action on a key that
+	// sunlight has not written since.
+	tamperedAt map[string]int
 }
 
 func newStore(idx int) *Store {
-	return &Store{idx: idx, objs: map[string]*Obj{}, immSeen: map[string][32]byte{}}
+	return &Store{idx: idx, objs: map[string]*Obj{}, immSeen: map[string][32]byte{}, tamperedAt: map[string]int{}}
 }
 
 func (s *Store) get(key string) ([]byte, bool) {
@@ -58,6 +61,7 @@ func (s *Store) get(key string) ([]byte, bool) {
 }
 
 func (s *Store) put(key string, data []byte, opts *ctlog.UploadOptions) {
+	delete(s.tamperedAt, key)
 	s.ver++
 	o := &Obj{Data: bytes.Clone(data), Ver: s.ver}
 	if opts != nil {
